@@ -96,21 +96,25 @@ def z3_check(hyps: Sequence, goal, timeout_ms=None, tactic: Optional[str] = None
             else:
                 conj.append(g)
         ok = True
-        budget = time.time() + min(timeout_ms, 20000) / 1000.0
+        budget = time.time() + max(timeout_ms, 20000) / 1000.0
         for g in conj:          # each conjunct of the goal on its own: the negated conjunction is a disjunction E-matching handles badly
-            s = z3.Solver()
-            s.set("timeout", int(max(500, min(8000, (budget - time.time()) * 1000))))
-            s.set("auto_config", False)
-            s.set("smt.mbqi", False)
-            s.set("random_seed", int(seed))
-            for h in hyps:
-                s.add(h)
-            s.add(z3.Not(g))
-            try:
-                if s.check() != z3.unsat:
-                    ok = False
+            proved = False
+            for attempt in range(2):        # E-matching is sensitive to the search order: a second seed before giving up
+                s = z3.Solver()
+                s.set("timeout", int(max(3000, min(10000, (budget - time.time()) * 1000))))   # floor: a loaded machine must not flip a millisecond query
+                s.set("auto_config", False)
+                s.set("smt.mbqi", False)
+                s.set("random_seed", int(seed) + 7919 * attempt)
+                for h in hyps:
+                    s.add(h)
+                s.add(z3.Not(g))
+                try:
+                    if s.check() == z3.unsat:
+                        proved = True
+                        break
+                except z3.Z3Exception:
                     break
-            except z3.Z3Exception:
+            if not proved:
                 ok = False
                 break
         if ok:
